@@ -167,7 +167,8 @@ def shrink_tree(v):
 # ------------------------------------------------------------------ emitters (independent of bkl's encoders)
 def _json_tok(v):
     if isinstance(v, F):
-        return str(v)
+        s = str(v)
+        return s if ("." in s or "e" in s or "E" in s) else s + ".0"
     if v is None:
         return "null"
     if v is True:
